@@ -10,7 +10,11 @@
      sent:i:j blocked:i:j skipped:i:j empty:i nil:i recv:i:j:<adm|-> store:i:j done:i:j close:<i+i..|-> none
      get:<r>:<e> (returns at once) | get:blocked | get:noref
      gret:<step of G>:<step of the Done that releases it|never>:<r>:<e>   for every blocked getter
-     len=<l0,l1,...> buffer length BEFORE each step ; buf=<i.j,...> ; closed= ; blk=<i,...> *)
+     len=<l0,l1,...> buffer length BEFORE each step ; buf=<i.j,...> ; closed= ; blk=<i,...>
+   The Get2 waiters are the model's own (tq_gstep): G starts a waiter (TqGGet h, h = the handle
+   the call returned), the event says whether it returns at once or parks; the [released] list
+   of a base step's event names the waiters that step released.  The driver only looks up the
+   handle and remembers at which step each waiter started. *)
 open Model
 open Conv
 
@@ -50,45 +54,46 @@ let run_c09 (toks : string list) : string =
       progs := List.map (fun p -> if p = "-" || p = "" then [] else List.map parse_op (split_on ',' p))
                  (split_on '/' (String.sub t 6 (String.length t - 6)))
     else steps := !steps @ [t]) toks;
-  let st = ref (tq_init (ni !size) !progs) in
+  let gst = ref (tq_ginit (ni !size) !progs) in
   let out = ref [] and lens = ref [] in
-  let pending = ref [] in   (* (step of G, handle) *)
+  let gstep_of = Hashtbl.create 16 in   (* waiter number -> step of its G *)
   let grets = ref [] in
   let handle_of i j =
-    match List.nth_opt (!st).tq_prods i with
+    match List.nth_opt (!gst).tq_base.tq_prods i with
     | None -> None
     | Some p -> List.nth_opt p.tq_rets j in
   List.iteri (fun n t ->
-    lens := List.length (!st).tq_buf :: !lens;
+    lens := List.length (!gst).tq_base.tq_buf :: !lens;
     let act = match split_on ':' t with
-      | ["P"; i; c] -> Some (TqProd (ni (int_of_string i), c = "1"))
-      | ["R"; k] -> Some (TqRecv (ni (int_of_string k)))
-      | ["S"] -> Some TqStore
-      | ["D"] -> Some TqDone
-      | ["C"] -> Some TqClose
+      | ["P"; i; c] -> Some (TqGBase (TqProd (ni (int_of_string i), c = "1")))
+      | ["R"; k] -> Some (TqGBase (TqRecv (ni (int_of_string k))))
+      | ["S"] -> Some (TqGBase TqStore)
+      | ["D"] -> Some (TqGBase TqDone)
+      | ["C"] -> Some (TqGBase TqClose)
       | ["G"; i; j] ->
         (match handle_of (int_of_string i) (int_of_string j) with
-         | None | Some TqHNil -> out := "get:noref" :: !out
-         | Some h ->
-           (match tq_get2 !st h with
-            | Some (r, e) -> out := Printf.sprintf "get:%s:%s" (string_of_z r) (string_of_z e) :: !out
-            | None -> out := "get:blocked" :: !out; pending := (n, h) :: !pending));
-        None
+         | None | Some TqHNil -> out := "get:noref" :: !out; None
+         | Some h -> Some (TqGGet h))
       | _ -> failwith ("bad step " ^ t) in
     match act with
     | None -> ()
     | Some a ->
-      let (s1, e) = tq_step !st a in
-      st := s1; out := show_ev e :: !out;
-      (* getters released by this step *)
-      let still = ref [] in
-      List.iter (fun (g, h) ->
-        match tq_get2 !st h with
-        | Some (r, e) -> grets := Printf.sprintf "gret:%d:%d:%s:%s" g n (string_of_z r) (string_of_z e) :: !grets
-        | None -> still := (g, h) :: !still) (List.rev !pending);
-      pending := List.rev !still) !steps;
-  List.iter (fun (g, _) -> grets := Printf.sprintf "gret:%d:never:0:0" g :: !grets) (List.rev !pending);
-  let s = !st in
+      let (g1, e) = tq_gstep !gst a in
+      gst := g1;
+      (match e with
+       | TqGEBase (eb, released) ->
+         out := show_ev eb :: !out;
+         List.iter (fun (w, (r, e)) ->
+           grets := Printf.sprintf "gret:%d:%d:%s:%s" (Hashtbl.find gstep_of (ii w)) n (string_of_z r) (string_of_z e) :: !grets)
+           released
+       | TqGERet (_, (r, e)) -> out := Printf.sprintf "get:%s:%s" (string_of_z r) (string_of_z e) :: !out
+       | TqGEPark w -> Hashtbl.replace gstep_of (ii w) n; out := "get:blocked" :: !out)) !steps;
+  (* waiters still parked at the end *)
+  List.iteri (fun w wt ->
+    match wt.tq_w_ret with
+    | None -> grets := Printf.sprintf "gret:%d:never:0:0" (Hashtbl.find gstep_of w) :: !grets
+    | Some _ -> ()) (!gst).tq_waiters;
+  let s = (!gst).tq_base in
   let blk = List.concat (List.mapi (fun i p -> match p.tq_ppc_of with TqPBlocked _ -> [string_of_int i] | TqPIdle -> []) s.tq_prods) in
   String.concat " " (List.rev !out) ^ " | " ^ String.concat " " (List.rev !grets) ^
   Printf.sprintf " len=%s buf=%s closed=%d blk=%s recvd=%d entered=%d"
